@@ -4,7 +4,7 @@ From Coq Require Import NArith ZArith List.
 From M17 Require Import ImplFrameDecoder ConstsFramedecoder.
 Import ListNotations.
 
-Lemma fd_consts_ok :
+Definition fd_consts_statement : Prop :=
   max_lich_fragment = MAX_LICH_FRAGMENT /\
   derandomizer_size = 368 /\ interleaver_args = (45, 92, 368) /\
   trellis_K = 4 /\ trellis_n = 2 /\ trellis_polys = [25; 23]%N /\ viterbi_llr = 4 /\
@@ -16,4 +16,6 @@ Lemma fd_consts_ok :
   seg_mask = 63%N /\ seg_full = 63%N /\ lich_costs = [(-1); (-1); 0; 128]%Z /\
   stream_offset = 96 /\ eof_byte = 25 /\ eof_mask = 128%N /\
   unpack_lich_literals = [0; 0; 4; 0; 0; 24; 1; 24; 0; 0; 12; 1; 8; 255; 4; 15; 4]%N.
-Proof. repeat split; reflexivity. Qed.
+
+Lemma fd_consts_ok : fd_consts_statement.
+Proof. unfold fd_consts_statement. repeat split; reflexivity. Qed.
